@@ -651,7 +651,11 @@ func (self *TextCommandConverter) ConvertTextAppendCommand(textProtocol ITextPro
 			}
 			return stream.WriteBytes([]byte(fmt.Sprintf("-ERR %d\r\n", lockCommandResult.Result)))
 		}
-		return stream.WriteBytes([]byte(fmt.Sprintf(":%d\r\n", lockCommandResult.Data.GetValueSize()+len(args[2]))))
+		valueSize := 0
+		if lockCommandResult.Data != nil {
+			valueSize = lockCommandResult.Data.GetValueSize()
+		}
+		return stream.WriteBytes([]byte(fmt.Sprintf(":%d\r\n", valueSize+len(args[2]))))
 	}, nil
 }
 
